@@ -305,7 +305,17 @@ def gen_C04(rng, tier):
                 for (p2, n2) in [(pp + 1, nn - 256), (pp + 1, nn % 256), (pp, nn % 256), (3, nn - 256), (3, nn % 256), (5, nn % 128)]:
                     if n2 >= 1 and rng.random() < 0.5:
                         seq.append((p2, n2))
-            elif r < 0.8:
+            elif r < 0.6:
+                # (round 10, C04-R10) a present pair, then absent pairs that collide with it when (p, n) is packed into one
+                # word with 8, 16 or 32 bits per component, or when a component is truncated to that width
+                pp, nn = rng.choice(lo)
+                seq.append((pp, nn))
+                for W in (8, 16, 32):
+                    k = rng.randrange(1, 4)
+                    for (p2, n2) in [(pp + (k << W), nn), (pp, nn + (k << W)), (pp - k, nn + (k << W)), (pp + (1 << W), nn + (1 << W))]:
+                        if p2 >= 0 and n2 >= 1 and p2 < 2 ** 64 and n2 < 2 ** 64 and rng.random() < 0.5:
+                            seq.append((p2, n2))
+            elif r < 0.85:
                 seq.append(rng.choice(lo))
             else:
                 seq.append(rng.choice(absent))
@@ -313,7 +323,7 @@ def gen_C04(rng, tier):
         if seq and rng.random() < 0.6:
             # the same pair again (the harness overwrites every list it was given before the next look-up)
             k0 = rng.choice(seq); seq.insert(rng.randrange(len(seq) + 1), k0); seq.append(k0)
-        L.append("conwayseq " + " ".join("%d %d" % k for k in seq[:30]))
+        L.append("conwayseq " + " ".join("%d %d" % k for k in seq[:40]))
     for (p, n) in [(0, 0), (1, 1), (2, 0), (4, 2), (6, 1), (2, 410), (109987, 1), (109987, 2), (109988, 1),
                    (2 ** 64 - 1, 1), (3, 2 ** 64 - 1)]:
         L.append("conway %d %d" % (p, n))
@@ -831,6 +841,15 @@ def gen_C08(rng, tier):
         h = H(rng, desc, bspec=bspec(rng))
         qs = [h.bpoly() for _ in range(3)]
         es = [h.elem(), h.elem(), h.elem("0"), h.elem("1")]
+        if rng.random() < 0.2:
+            # (round 10, C08-R10) a polynomial built from element OBJECTS, one object under two exponents; then in-place
+            # arithmetic on the polynomial and on the element: the polynomial owns its coefficients
+            e_ = rng.choice(es[:2])
+            rq = h.newb(); h.ops.append("%s=regs@0 %s" % (rq, "/".join("%d:%d:%s" % (i, rng.randrange(3), x) for i, x in enumerate([e_, e_, rng.choice(es)])))); qs.append(rq)
+            h.ops.append("%s %s %s" % (rng.choice(["add", "sub"]), rq, h.bpoly(nterms=1)))
+            h.ops.append("obs %s" % rq)
+            h.ops.append("add %s %s" % (e_, es[3])); h.ops.append("obs %s" % rq)
+            h.ops.append("setscale %s %s" % (rq, es[0])); h.ops.append("obs %s" % rq)
         if rng.random() < 0.3:
             r = h.newb(); h.ops.append("%s=neg %s" % (r, qs[0])); qs.append(r)
             t = h.bpoly(nterms=1)
@@ -1753,6 +1772,17 @@ def gen_C17(rng, tier):
                 bp_ = h.newu(); h.ops.append("%s=plus %s %s" % (bp_, f0_, g2_))
                 h.ops.append("uireduce 0:%s %s" % (rng.choice(["1", _canon_poly()]), bp_))
         pool = good_e + bad_e + [z]
+        # (round 10, C17-R10a) ONE erroneous object in both operand positions, the receiver a different, clean object — and
+        # every other same-object placement of an erroneous element (fast paths for squaring that skip the operand checks)
+        for e_ in bad_e:
+            if rng.random() < 0.6:
+                c = h.newe(); h.ops.append("%s=copy %s" % (c, good_e[0])); pool.append(c)
+                h.ops.append("prod %s %s %s" % (c, e_, e_))
+                r = h.newe(); h.ops.append("%s=%s %s %s" % (r, rng.choice(["times", "plus", "minus"]), e_, e_)); pool.append(r)
+                c2 = h.newe(); h.ops.append("%s=copy %s" % (c2, e_)); pool.append(c2)
+                h.ops.append("%s %s %s" % (rng.choice(["mult", "add", "sub"]), c2, c2))
+                c3 = h.newe(); h.ops.append("%s=copy %s" % (c3, e_)); pool.append(c3)
+                h.ops.append("prod %s %s %s" % (c3, c3, rng.choice([c3, good_e[1]])))
         for _ in range(rng.randrange(3, 14)):
             a, b = rng.choice(pool), rng.choice(pool)
             if rng.random() < 0.12:
@@ -1802,6 +1832,12 @@ def gen_C17(rng, tier):
         h.ops.append("%s=gcd %s %s %s" % (h.newu(), f0, f0, badp))
         h.ops.append("%s,%s=quorem %s %s" % (h.newu(), h.newu(), badp, f0)); h.ops.append("%s,%s=quorem %s %s" % (h.newu(), h.newu(), f0, badp))
         upool = [f0, badp, h.upoly(deg=2, ring=0)]
+        if rng.random() < 0.5:
+            # the same erroneous polynomial object in both positions
+            r = h.newu(); h.ops.append("%s=%s %s %s" % (r, rng.choice(["times", "plus", "minus"]), badp, badp)); upool.append(r)
+            cb = h.newu(); h.ops.append("%s=copy %s" % (cb, badp)); upool.append(cb)
+            h.ops.append("%s %s %s" % (rng.choice(["mult", "add", "sub"]), cb, cb))
+            h.ops.append("%s=gcd %s %s" % (h.newu(), badp, badp)); h.ops.append("%s,%s=quorem %s %s" % (h.newu(), h.newu(), badp, badp))
         for _ in range(rng.randrange(2, 9)):
             a, b = rng.choice(upool), rng.choice(upool)
             if rng.random() < 0.6:
